@@ -22,6 +22,18 @@ LN_RING = ("Theorems are about models M1 (AtomicMove) / M2 (FullSyncMove), not a
            "(every hook point, register value and result of every recorded schedule must agree) - as strong as the schedules explored. "
            "Sequential consistency assumed; index-based cancel is excluded from the executions the ring theorems quantify over unless the cancel is exact (see cancel_steals in DESIGN.md).")
 
+HANDLES_RULE = ("2-3 threads run random scripts of new / new_with_clones / clone / drop / bulk increment + raw copies / reference count / deref / "
+                "unique new / drop / into_ogre_arc on one pool (sizes 2,4,8; both free-list kinds); scheduler picks at every reference-counter access; "
+                "DISTINCT by trace hash, NON-TRIVIAL if a last-drop (dealloc) happens and at least one clone/bulk increment ran concurrently in the script")
+
+def handles(kind, runs):
+    return dict(bin="handles", args=[f"kind={kind}"], runs=runs, model_name="M3+M5 Handles")
+
+LN_HANDLES = ("Theorems are about model M3+M5 (pool with an abstract FIFO free list + reference-count micro-steps); ring operations underneath are "
+              "atomic at this granularity (their linearizability is C02). Handles are anonymous counts: the model assumes Rust's ownership rules "
+              "(nobody drops a handle another call is borrowing) and that the safe-but-forging constructors from_allocated*/ref_from_id are not "
+              "misused. Tie to the code: step-level replay of scheduled runs; destructor counters on an instrumented payload type.")
+
 PROPS = {
  "C01": dict(
     level_text="Lean 4 proof for every execution (any thread count, schedule, length, buffer size) of the ring models that the Uni channels are built on: delivered sequence numbers are exactly 0..head-1 without repetition, each delivered value is the accepted one, nothing accepted is lost, a rejected send never wrote. Model tied to the code by step-level replay of thousands of scheduled runs; an implementation-side exactly-once oracle produces concrete replays.",
@@ -49,5 +61,32 @@ PROPS = {
     rule=RING_RULE,
     trusted_base=TB_COMMON,
     assumptions=[],
+ ),
+ "C13": dict(
+    level_text="Lean 4 proof, for every execution of the pool model (any thread count / schedule / history, including shared and unique handles on top): free list, owned slots and unique allocations always form a permutation of 0..N-1 (so no slot has two owners, at most N are outstanding, exhaustion is answered exactly when the free list is empty, dealloc always finds room), FIFO reuse, id<->reference bijection; the free list itself is ring model M1/M2 (C02 witnesses for `empty`). Tied to the code by step-level replay; oracle: ids handed out are distinct, capacity restored.",
+    level_note=LN_HANDLES,
+    lean=["C13"],
+    scenarios=[handles("atomic", 1200), handles("fullsync", 1200), ring("atomic", "mixed", 800), ring("fullsync", "mixed", 800)],
+    rule=HANDLES_RULE,
+    trusted_base=TB_COMMON,
+    assumptions=["only owned ids are deallocated (the callers in this crate are OgreArc/OgreUnique/zero-copy containers, modelled)"],
+ ),
+ "C14": dict(
+    level_text="Lean 4 proof over every execution of the handles model: rc = live + lent + owed, a held value is alive, unchanged and not in the free list, reference count equals live handles at quiescence, the destructor runs exactly at the fetch_sub that saw 1 (never earlier, never twice), into_ogre_arc neither destroys nor allocates, bulk increment + raw copies = clones. Tied to the code by step-level replay at every reference-counter access; destructor-count oracle.",
+    level_note=LN_HANDLES,
+    lean=["C14"],
+    scenarios=[handles("atomic", 1600), handles("fullsync", 1600)],
+    rule=HANDLES_RULE,
+    trusted_base=TB_COMMON,
+    assumptions=["setters initialise the slot without reading or dropping its previous bytes"],
+ ),
+ "C05": dict(
+    level_text="Lean 4 proof: each payload generation is destroyed at most once and exactly once when its last handle is gone, a held slot is never re-allocated or overwritten, capacity is restored when everything is released (handles model); teardown: a general theorem characterises the field orders under which dropping a channel with buffered handles touches no freed pool memory, instantiated by `decide` on the field orders GENERATED from the current source on every run. Tied to the code by step-level replay + child-process teardown histories with an instrumented payload.",
+    level_note=LN_HANDLES + " The teardown model is a region protocol (pool alive/freed): the allocator-level use-after-free itself is only observed on the real code as a crash of the child process.",
+    lean=["C05"],
+    scenarios=[handles("atomic", 1200), handles("fullsync", 1200), dict(bin="teardown", args=[], runs=100, model=False, single=True, model_name="Teardown (generated field orders)")],
+    rule=HANDLES_RULE + "; teardown: histories (events sent, consumed, handles released before/after) per channel kind, each in a child process",
+    trusted_base=TB_COMMON + ["tools/extract.py (field-order translator): a mis-parse makes the generated obligation fail or pass wrongly; its output is committed to the evidence"],
+    assumptions=["payload handles do not outlive their channel", "setters initialise the slot without reading or dropping its previous bytes"],
  ),
 }
